@@ -46,6 +46,26 @@ M = [
  ('keeps singleton extraction parameters', 'C19', '`$S = int; fn get(self: $S) -> int { self }`: AnalyzedProgram.String() printed `fn get(self: int)`, the printed call `get()` was rejected ("requires 1 argument")'),
  ('integral float literals beyond 1e15', 'C19', '`9900000000000000000.0 as int`: printed as `<int>f` with an int64 overflow ("value out of range")'),
  ('large integral float literals are printed with a', 'C19', 'follow-up of the previous fix: `9900000000000000000.0` printed without a fraction lexed as an integer'),
+ ('`DeepCast` (both value libraries) wrapped *an', 'C12', '`DeepCast` (both value libraries) wrapped *any* non-option value into `?T` without looking at it (`"s"` admitted as `?int`, `null` became `Some(null)`); the inner value is now cast to `T` first, `null` becomes `none`'),
+ ('`fieldURI.push` ignored its `kind` argument, ', 'C12', '`fieldURI.push` ignored its `kind` argument, so every list index in a cast error path was printed as an empty field (``at `.` `` instead of ``at `[0]` ``)'),
+ ('interpreter `DeepCast` refused every value fo', 'C12', 'interpreter `DeepCast` refused every value for type `any` (no early return as in the VM) and fell through to the error for any-object -> `{ ? }` (missing `return &val, nil`)'),
+ ('interpreter `DeepCast` refused object -> `{ ?', 'C12', 'interpreter `DeepCast` refused object -> `{ ? }` when `allowCasts` is false (the VM accepts it): `let x: { ? } = s.parse_json();` failed on the interpreter only'),
+ ('a failed `as` / annotated `let` was a fatal `', 'C12', 'a failed `as` / annotated `let` was a fatal `CastError` on the interpreter (not catchable by `try`); it is now a normal throw with the VM\'s message prefix'),
+ ('interpreter `let x: any = <expr of an any-con', 'C12', 'interpreter `let x: any = <expr of an any-containing, non-any type>` returned without defining `x` (later use: host panic "Variable \'x\' not found")'),
+ ('`VM.SpawnSync/SpawnAsync` validated each argu', 'C12', '`VM.SpawnSync/SpawnAsync` validated each argument with `DeepCast` but passed the *raw* argument on (an object for a `{ ? }` parameter, a plain `1` for a `?int` parameter crashed the callee); the converted value is passed now'),
+ ('`HandleTermination` skipped return types of k', 'C12', '`HandleTermination` skipped return types of kind any-object together with null/never/unknown: a function returning `{ ? }` produced a nil `ReturnValue`'),
+ ('`IsEqual` of string, bool, list, object, any-', 'C13', '`IsEqual` of string, bool, list, object, any-object and range (both libraries) type-asserted the other operand: comparing any-objects whose values differ in kind (`{a: "x"}` vs `{a: 1}`) panicked the host'),
+ ('object / any-object `IsEqual` (both libraries', 'C13', 'object / any-object `IsEqual` (both libraries) ignored keys present only on the right: `{} == {a: 1}` was true while `{a: 1} == {}` was false'),
+ ('VM `to_json` dropped `none` / `null` list ele', 'C13', 'VM `to_json` dropped `none` / `null` list elements (`[none, 1]` -> `[1]`)'),
+ ('`to_json` (both libraries) dropped `none` / `', 'C13', '`to_json` (both libraries) dropped `none` / `null` object fields, and the typed read-back then failed with "field \'a\' was expected but not found"'),
+ ('the analyzer offers `range.to_string()`, neit', 'C18', 'the analyzer offers `range.to_string()`, neither runtime had it (host panic on first use)'),
+ ('the interpreter lacked `str.starts_with` and ', 'C18', 'the interpreter lacked `str.starts_with` and `str.substring` (host panic on first use)'),
+ ('the interpreter lacked `{ ? }.get_type`', 'C18', 'the interpreter lacked `{ ? }.get_type`'),
+ ('`"a".repeat(-1)` panicked the host in both ru', 'C18', '`"a".repeat(-1)` panicked the host in both runtimes (`strings.Repeat`); now a ValueError'),
+ ('VM `"abc".substring(-1)` panicked the host (s', 'C18', 'VM `"abc".substring(-1)` panicked the host (slice bounds); negative bounds now count from the end, beyond-the-start is refused with the existing "index out of range" throw'),
+ ('VM `ao.get_type("missing")` dereferenced nil;', 'C18', 'VM `ao.get_type("missing")` dereferenced nil; now an IndexOutOfBounds error like indexing a missing field'),
+ ('VM `[0..2].to_json()` panicked the host (`Mar', 'C18', 'VM `[0..2].to_json()` panicked the host (`MarshalValue` has no error path); the panic is turned into a JsonError as on the interpreter'),
+ ('import identifier loop stops on a lexer error', 'C05', '`import trigger minute from tri\u00e9ggers;` (an illegal character inside the module name): Parser.importIdent looped forever appending to a slice until "fatal error: out of memory" killed the host'),
 ]
 log = subprocess.check_output(['git', '-C', '/repo', 'log', '--reverse', '--format=%h %s']).decode().splitlines()
 fixed, unmatched = [], []
